@@ -20,7 +20,8 @@ func init() {
 	register(&RuleSet{
 		ID:      "C07",
 		Arch386: true,
-		Explanation: "T17 (= C09.R1/R4) the verification closure writes no state that outlives the call, so the outcome for an input does not depend on earlier inputs. " +
+		Explanation: "T18 every call into go-sev-guest's certificate-table parser (CertTable.Unmarshal, ReportCertsToProto) is dominated by the nil edge of extractsev.CheckCertTable over bytes of the same input (F24). " +
+			"T17 (= C09.R1/R4) the verification closure writes no state that outlives the call, so the outcome for an input does not depend on earlier inputs. " +
 			"Closure V = repo functions reachable from the relying-party entry points (verify.Endorsement[Proto], the SNP validator closures, extract.Attestation / Endorsement, extractsev.From*, SevPolicy, TdxPolicy, SevValidate, TdxValidate, Inspect*, MaskOptions.Mask, CryptoAgileLog.Unmarshal, SP800155Event3.UnmarshalFromBytes, exel.Locate). " +
 			"T1 nil-unsafe dereference: a pointer to a generated message obtained from a getter or a message field (possibly nil after unmarshalling untrusted bytes) reaches a direct field access only behind a != nil edge for the same access path (parameters are resolved at the call sites in V). " +
 			"T2 allocation proportional to input: make / Grow / strings.Repeat whose size derives from a decoded integer (target of binary.Read — also through the repo's read helpers — or a binary UintN result) must be dominated by an ordering comparison of that value with a constant or a length; sizes looked up in a package-level table of constants are bounded. " +
@@ -83,6 +84,68 @@ func c07Roots(c *Ctx) []*ssa.Function {
 }
 
 func runC07(c *Ctx) {
+	// T18 (finding F24): go-sev-guest's certificate-table parser adds an entry's offset and length in 32 bits and then
+	// slices: a wrapping entry panics. Every call of this repository into that parser ((*abi.CertTable).Unmarshal,
+	// abi.ReportCertsToProto) is reached only on the nil edge of extractsev.CheckCertTable (the 64-bit range check) over
+	// bytes of the same input.
+	defer func() {
+		n := 0
+		sl := flow.NewSlicer(c.P)
+		for _, f := range c.P.RepoFunctions() {
+			if c.isTestFunc(f) || isTestingPkg(load.RelPkg(f)) {
+				continue
+			}
+			for _, call := range callsIn(f, func(call ssa.CallInstruction) bool {
+				cal := call.Common().StaticCallee()
+				if cal == nil || cal.Pkg == nil || cal.Pkg.Pkg.Path() != "github.com/google/go-sev-guest/abi" {
+					return false
+				}
+				return (cal.Name() == "Unmarshal" && cal.Signature.Recv() != nil && strings.HasSuffix(cal.Signature.Recv().Type().String(), "abi.CertTable")) || cal.Name() == "ReportCertsToProto"
+			}) {
+				n++
+				var data ssa.Value
+				for _, a := range call.Common().Args {
+					if a.Type().String() == "[]byte" {
+						data = a
+					}
+				}
+				roots := map[ssa.Value]bool{}
+				if data != nil {
+					sl.Visit(data, func(v ssa.Value) bool { roots[v] = true; return true }, nil)
+				}
+				guarded := false
+				b := call.(ssa.Instruction).Block()
+				for _, cf := range dominatingConds(b) {
+					bo, ok := cf.Cond.(*ssa.BinOp)
+					if !ok || !isNilK(bo.Y) || (bo.Op != token.EQL && bo.Op != token.NEQ) || (bo.Op == token.EQL) != cf.Val {
+						continue
+					}
+					gc, ok := bo.X.(*ssa.Call)
+					if !ok || gc.Call.StaticCallee() == nil || gc.Call.StaticCallee().Name() != "CheckCertTable" || load.RelPkg(gc.Call.StaticCallee()) != "extract/extractsev" {
+						continue
+					}
+					// over bytes of the same input
+					same := false
+					sl.Visit(gc.Call.Args[0], func(v ssa.Value) bool {
+						if _, isK := v.(*ssa.Const); !isK && roots[v] {
+							if _, isP := v.(*ssa.Parameter); isP {
+								same = true
+							}
+							if v == data {
+								same = true
+							}
+						}
+						return !same
+					}, nil)
+					if same {
+						guarded = true
+					}
+				}
+				c.S.Check(guarded, "T18", load.FuncName(f)+":"+callName(call)+" behind CheckCertTable", c.pos(call.Pos()), "the table parser is reached only on the nil edge of the 64-bit range check over the same input", "go-sev-guest's certificate-table parser is handed bytes that were not range-checked first: an entry whose offset+length wraps 32 bits passes its own check and is sliced out of bounds (panic on peer-controlled bytes)")
+			}
+		}
+		c.S.Floor("T18", "calls into go-sev-guest's certificate-table parser", 3, n)
+	}()
 	// T17 = C09.R1/R4: the relying-party decoders keep no state between calls. A decoder that remembers something
 	// about an earlier input (a parse cache keyed by peer-chosen bytes) can answer the second presentation of a
 	// malformed input differently from the first — "refused" the first time, a nil dereference the second.
